@@ -47,18 +47,26 @@ def text(h, C):
         return out
     RANK = {"a": 3, "b": 2, "c": 1, "d": 0, "U": 5, "W": 4, "?": 9}
 
+    def rank(name):
+        """sort key of a named individual; the bulk objects of the scale families (x1.., y1.., z1.., Z1..) get pairwise distinct keys"""
+        if name in RANK:
+            return RANK[name]
+        if isinstance(name, str) and len(name) > 1 and name[0] in "xyzZ" and name[1:].isdigit():
+            return {"x": 10, "y": 200, "z": 400, "Z": 600}[name[0]] + int(name[1:])
+        return 9
+
     def want_sorted_then_plain(m):
         plain = want(m)
         if plain is DC or plain is None:
             return DC
         lines = []
-        for v in sorted(m.umem["U"], key=RANK.get):
-            r = sorted(hist.m_neighbors(m, v, "FORWARD", u0), key=RANK.get)
+        for v in sorted(m.umem["U"], key=rank):
+            r = sorted(hist.m_neighbors(m, v, "FORWARD", u0), key=rank)
             lines.append((v + " -> " + ", ".join(r)).rstrip())
         return [lines, plain]
 
     def do_sorted_then_plain(g):
-        key = Callback("sort", lambda I, k, a, kw: RANK.get(getattr(a[0], "name", "?"), 9))
+        key = Callback("sort", lambda I, k, a, kw: rank(getattr(a[0], "name", "?")))
         outs = []
         for sort in (key, None):
             out = h.call(fn, g.obj("U"), _name_cb("rfunc"), sort)
